@@ -1,7 +1,9 @@
-(* C16 (a): which exceptions can escape the middleware.  For a WSGI environ
-   (REMOTE_ADDR and wsgi.url_scheme present) the only one is the IndexError of
-   strip_brackets on an empty address part (finding F19); the class of inputs
-   is characterised exactly. *)
+(* C16 (a): no exception escapes the middleware.  For a WSGI environ
+   (REMOTE_ADDR and wsgi.url_scheme present -- task.get_environment always
+   sets them) every header value and every configuration gives Ok or
+   Malformed.  (Before the repair 12a41a9 strip_brackets("") raised IndexError
+   for a client address with an empty address part: finding F19, now a 400.)
+   Without those two keys the middleware raises KeyError; characterised too. *)
 From Coq Require Import String.
 From Coq Require Import List NArith ZArith Bool Lia.
 From WV Require Import Lib.PyBytes Lib.PyStrProxy Lib.Regex Gen.GenRegex Model.Proxy Spec.ProxySpec
@@ -112,32 +114,16 @@ Proof.
   apply (fr_keys _ _ (blk_xfh_frame _ _ _ _ E2)). apply (fr_keys _ _ (blk_xff_frame _ _ _ _ E1)). exact Hk.
 Qed.
 
-(* ---- writing the selection: the one exception ------------------------------------------- *)
-Definition crashes (s : pst) : bool :=
-  negb (cat_scheme (fproto s)) && match client s with Some c => bad_client c | None => false end.
-
-Lemma apply_result s : has_key k_url_scheme (env s) ->
-  (crashes s = true -> parse_apply s = Exn IndexError) /\
-  (crashes s = false -> no_exn (parse_apply s)).
+(* ---- writing the selection never raises ------------------------------------------------------- *)
+Lemma apply_no_exn s : has_key k_url_scheme (env s) -> no_exn (parse_apply s).
 Proof.
-  intro Hk. unfold parse_apply, crashes.
-  destruct (stage_proto s) as [s1| |] eqn:E1; cbn [bind].
+  intros Hk x. unfold parse_apply.
+  destruct (stage_proto s) as [s1| |] eqn:E1; cbn [bind]; try discriminate.
   - pose proof (stage_proto_has_key _ _ _ E1 Hk) as Hk1.
-    apply stage_proto_ok in E1 as (Hc1 & _ & _ & _ & Hsch).
-    assert (Hcs : cat_scheme (fproto s) = false).
-    { destruct Hsch as [[_ ->]|(_ & -> & _)]; reflexivity. }
-    rewrite Hcs. cbn [negb andb].
-    destruct (stage_host s1) as [s2| |] eqn:E2; cbn [bind].
-    + apply stage_host_ok in E2 as (Hc2 & _).
-      rewrite stage_client_spec. destruct (stage_port_facts s2) as (Hc3 & _). rewrite Hc3, Hc2, Hc1.
-      destruct (client s) as [[|c0 c']|].
-      * change (bad_client []) with false. split; [discriminate|intros _ x; discriminate].
-      * cbv zeta. destruct (bad_client (c0 :: c')); split; intros; try discriminate; auto;
-          intro x; discriminate.
-      * split; [discriminate|intros _ x; discriminate].
-    + exfalso. eapply stage_host_no_malformed; eauto.
+    destruct (stage_host s1) as [s2| |] eqn:E2; cbn [bind]; try discriminate.
+    + rewrite stage_client_spec. destruct (client (stage_port s2)) as [[|c0 c']|]; try discriminate.
+      cbv zeta. destruct (bad_client (c0 :: c')); discriminate.
     + exfalso. eapply stage_host_no_exn; eauto.
-  - apply stage_proto_malformed in E1 as [-> _]. cbn. split; [discriminate|intros _ x; discriminate].
   - exfalso. eapply stage_proto_no_exn; eauto.
 Qed.
 
@@ -152,70 +138,45 @@ Definition on_trusted_path (c : config) (e : environ) : bool :=
 
 Definition tph_of (c : config) : list str := match trusted_proxy_headers c with None => [] | Some t => t end.
 
-(* the decidable class of requests on which an exception escapes *)
-Definition crash_class (c : config) (e : environ) : bool :=
-  on_trusted_path c e &&
-  match parse_select e (trusted_proxy_count c) (tph_of c) with
-  | Ok s => crashes s
-  | _ => false
-  end.
-
-Lemma total_exact c e : env_ok e ->
-  (crash_class c e = true -> middleware c e = Exn IndexError) /\
-  (crash_class c e = false -> no_exn (middleware c e)).
+Lemma total c e : env_ok e -> forall x, middleware c e <> Exn x.
 Proof.
-  intros [Hra Hus]. unfold crash_class, on_trusted_path, middleware.
+  intros [Hra Hus] x. unfold middleware.
   destruct (lookup k_remote_addr e) as [peer|] eqn:Ep; [|exfalso; apply Hra; exact Ep].
-  destruct (opt_str_eqb (trusted_proxy c) (Some s_star) || opt_str_eqb (Some peer) (trusted_proxy c)); cbn [andb].
+  destruct (opt_str_eqb (trusted_proxy c) (Some s_star) || opt_str_eqb (Some peer) (trusted_proxy c)).
   - unfold parse_proxy_headers. fold (tph_of c).
-    destruct (parse_select e (trusted_proxy_count c) (tph_of c)) as [s| |] eqn:Es; cbn [bind].
+    destruct (parse_select e (trusted_proxy_count c) (tph_of c)) as [s| |] eqn:Es; cbn [bind]; try discriminate.
     + pose proof (select_keys _ _ _ _ _ Es Hus) as Hk.
-      destruct (apply_result s Hk) as [A1 A2]. destruct (crashes s).
-      * split; [|discriminate]. intros _. rewrite A1 by reflexivity. reflexivity.
-      * split; [discriminate|]. intros _ x. specialize (A2 eq_refl).
-        destruct (parse_apply s) as [s'| |] eqn:Ea; cbn [bind]; try discriminate.
-        exfalso. eapply A2; eauto.
-    + split; [discriminate|intros _ x; discriminate].
+      destruct (parse_apply s) as [s'| |] eqn:Ea; cbn [bind]; try discriminate.
+      exfalso. eapply apply_no_exn; eauto.
     + exfalso. eapply select_no_exn; eauto.
-  - split; [discriminate|]. intros _ x. cbn [bind]. destruct (clear_untrusted c); discriminate.
+  - cbn [bind]. destruct (clear_untrusted c); discriminate.
 Qed.
 
-(* the statement of the property (false today: see total_refuted) *)
-Definition C16_total_statement : Prop :=
-  forall c e, env_ok e -> forall x, middleware c e <> Exn x.
+(* outside WSGI environs: the only exception is the KeyError of the two
+   unconditional subscripts environ["REMOTE_ADDR"] / environ["wsgi.url_scheme"] *)
+Lemma no_remote_addr c e : lookup k_remote_addr e = None -> middleware c e = Exn KeyError.
+Proof. intro H. unfold middleware. rewrite H. reflexivity. Qed.
 
-Lemma total_partial c e : env_ok e -> crash_class c e = false -> forall x, middleware c e <> Exn x.
-Proof. intros He Hc. apply (total_exact c e He). exact Hc. Qed.
-
-(* Forwarded: for=:80  from the trusted proxy *)
+(* non-vacuity, and the two former crash inputs *)
 Definition f19_cfg : config :=
   {| trusted_proxy := Some (s2l "10.0.0.1"%string); trusted_proxy_count := 1%Z;
      trusted_proxy_headers := Some [n_fwd]; clear_untrusted := true |}.
 Definition f19_env : environ :=
   [(k_remote_addr, s2l "10.0.0.1"%string); (k_url_scheme, s_http); (k_fwd, s2l "for=:80"%string)].
-(* X-Forwarded-For: " "  (a quoted space) *)
 Definition f19_cfg2 : config :=
   {| trusted_proxy := Some s_star; trusted_proxy_count := 2%Z;
      trusted_proxy_headers := Some [n_xff]; clear_untrusted := false |}.
 Definition f19_env2 : environ :=
   [(k_remote_addr, s2l "10.0.0.1"%string); (k_url_scheme, s_http); (k_xff, [34; 32; 34])].
 
-Lemma total_refuted : ~ C16_total_statement.
-Proof.
-  intro H. apply (H f19_cfg f19_env) with (x := IndexError).
-  - split; vm_compute; discriminate.
-  - vm_compute. reflexivity.
-Qed.
-
-Lemma total_refuted_witnesses :
-  env_ok f19_env /\ middleware f19_cfg f19_env = Exn IndexError /\
-  env_ok f19_env2 /\ middleware f19_cfg2 f19_env2 = Exn IndexError.
+Example former_crashes_are_400 :
+  env_ok f19_env /\ middleware f19_cfg f19_env = Malformed h_fwd /\
+  env_ok f19_env2 /\ middleware f19_cfg2 f19_env2 = Malformed h_xff.
 Proof. repeat split; vm_compute; try discriminate; reflexivity. Qed.
 
-(* the hypotheses of total_partial are satisfiable by a non-trivial request *)
-Example total_partial_nonvacuous :
+Example total_nonvacuous :
   let e := [(k_remote_addr, s2l "10.0.0.1"%string); (k_url_scheme, s_http);
             (k_fwd, s2l "for=""[2001:db8::1]:4711"";host=example.com;proto=https, for=192.0.2.7"%string)] in
-  env_ok e /\ crash_class f19_cfg e = false /\
+  env_ok e /\
   exists o, middleware f19_cfg e = Ok o /\ lookup k_remote_addr o = Some (s2l "192.0.2.7"%string).
 Proof. cbv zeta. repeat split; try (vm_compute; discriminate). eexists. split; vm_compute; reflexivity. Qed.
